@@ -620,6 +620,61 @@ class Universe:
                 fail('copyix:mismatch', f'copy has {self.labels(new)} {dense(new)}, the original {self.labels(ix)} {dense(ix)}')
             return line, ('~' if n in self.inexact else '') + f'ok {"".join(self.labels(new))} ' + show_dense(dense(new))
 
+        if op == 'query':
+            # read-only looking queries of CompiledChemicals; for the model each is the (pure) `getindex` of the same names
+            cs = self.sets[int(t[1])]
+            kind = t[2]
+            arg = parse_key(t[3]) if len(t) > 3 else None
+            self.tags.add('query:' + kind)
+            ids_ = [sp[0] for sp in cs.specs]
+            def ent(v): return ((','.join(map(str, v)) or '-') if isinstance(v, (list, tuple)) else str(v))
+            try:
+                if kind == 'members':
+                    mline = f'getindex {t[1]} {model_key(arg)}'
+                    ans = 'ok ' + ent([ids_.index(i) for i in cs.real.chemical_group_members(arg)])
+                elif kind == 'aliases':
+                    mline = f'getindex {t[1]} {model_key(arg)}'
+                    got = sorted(cs.real.get_aliases(arg))
+                    k = cs.real.index(arg)
+                    want = sorted(n_ for n_, p_ in cs.table().items() if p_ == self.pos_of(cs, arg) and not isinstance(p_, list))
+                    if got != want: fail('query/aliases:mismatch', f'get_aliases({arg!r}) = {got}; the names of that chemical are {want}')
+                    ans = 'ok ' + ent(k)
+                elif kind == 'groups':
+                    mline = f'getindex {t[1]} *'
+                    got = set(cs.real.chemical_groups)
+                    want = {d[1] for d in cs.defs if d[0] == 'group'}
+                    if got != want: fail('query/groups:mismatch', f'chemical_groups = {sorted(got)}; defined: {sorted(want)}')
+                    ans = 'ok'
+                elif kind == 'contains':
+                    mline = f'getindex {t[1]} {model_key(arg)}'
+                    ans = ('ok ' + ent(cs.real.index(arg))) if (arg in cs.real) else 'err=UndefinedChemicalAlias'
+                    if (arg in cs.real) != (self.pos_of(cs, arg) is not None):
+                        fail('query/contains:mismatch', f'{arg!r} in chemicals is {arg in cs.real}; the table says {self.pos_of(cs, arg)}')
+                else:   # available_indices: the positions of those names that are defined, in order; undefined names are skipped
+                    defined = tuple(k_ for k_ in arg if self.pos_of(cs, k_) is not None)
+                    mline = f'getindex {t[1]} {model_key(defined)}'
+                    v = cs.real.available_indices(arg)
+                    want = [self.pos_of(cs, k_) for k_ in defined]
+                    if [list(x) if isinstance(x, list) else x for x in v] != want:
+                        fail('query/available:mismatch', f'available_indices({t[3]}) = {v}; positions of the names: {want}')
+                    ans = 'ok ' + (';'.join(ent(x) for x in v) if v else '-')
+            except Exception as e:
+                self.tags.add('query:err:' + err_name(e))
+                fail(f'query/{kind}:raises-{err_name(e)}@{err_site(e)}', f'{kind}({t[3] if len(t) > 3 else ""}) raised {type(e).__name__}: {str(e)[:80]}')
+                return f'getindex {t[1]} *', 'err=' + err_name(e)
+            # a query changes nothing: every name keeps its position, every group its members IN THE ORDER OF ITS DEFINITION
+            self.names_stay(cs, fail, 'query')
+            for d in cs.defs:
+                if d[0] == 'group' and cs.group_ids(d[1]) is not None:
+                    want = self.members(cs, d[1])
+                    try: got = list(cs.real.get_index(d[1]))
+                    except Exception: got = None
+                    if got != want:
+                        fail('query:group-order-changed', f'after {kind}: group {d[1]!r} lists positions {got}; its definition says {want} '
+                                                          f'(the composition is stored in that order)')
+                        break
+            return mline, ans
+
         if op == 'getindex':
             cs = self.sets[int(t[1])]
             key = parse_key(t[2])
@@ -1456,6 +1511,7 @@ class Gen:
         ix = self.U.ixs[n][0]
         x = dy(rng, 0.05)
         m = 'm' if (rng.random() < 0.25 and not isinstance(ix, ind.SplitIndexer)) else ''
+        if rng.random() < 0.4: self.query_op(s, grp)                  # ask for the members first: that must change nothing
         if rng.random() < 0.5 and not isinstance(ix, ind.SplitIndexer):
             # every member holds material before the scalar arrives (a zero fraction must wipe it out)
             mem = [self.U.sets[s].specs[p_][0] for p_ in (self.U.pos_of(self.U.sets[s], grp) or [])]
@@ -1567,6 +1623,25 @@ class Gen:
         n = len(self.U.ixs) - 1
         if n >= 0 and rng.random() < 0.7: self.rw(n, 0.0, 0.2)
 
+    def query_op(self, s, grp=None):
+        """the public read-only queries of CompiledChemicals, interleaved with everything else"""
+        rng = self.rng
+        names, groups = self.accepted(s)
+        real_groups = sorted(self.U.sets[s].real.chemical_groups)
+        kind = rng.choice(['members', 'members', 'aliases', 'groups', 'contains', 'available'])
+        if grp is not None: kind = 'members'
+        if kind == 'members':
+            if not real_groups: return
+            self.do(f'query {s} members {enc(grp if grp in real_groups else rng.choice(real_groups))}')
+        elif kind == 'aliases': self.do(f'query {s} aliases {enc(rng.choice(names))}')
+        elif kind == 'groups': self.do(f'query {s} groups')
+        elif kind == 'contains':
+            n_ = self.name(s, 0.3)
+            if n_ not in RESERVED: self.do(f'query {s} contains {enc(n_)}')
+        else:
+            k = tuple(self.name(s, 0.15) for _ in range(rng.randrange(1, 4)))
+            self.do(f'query {s} available {show_key(k)}')
+
     def getindex_op(self, s):
         rng = self.rng
         k = rng.choice([0, 1, 2, 2, 3, 4])
@@ -1637,6 +1712,7 @@ def gen_small(g, rng):
             if flows: g.do(f'copyix {rng.choice(flows)}')
         elif r < 0.31: g.reset_op()
         elif r < 0.33: g.copy_then_redefine(s)
+        elif r < 0.37: g.query_op(s)
         else: g.rw(rng.randrange(len(g.U.ixs)))
 
 
@@ -1961,6 +2037,11 @@ def corpus():
               'get 0 l', 'copyix 0', 'copyix 1', 'group 0 G Water,Methanol -', 'get 1 G', 'get 1 (l,G)', 'get 2 (*,(Water,G))', 'get 0 (l,G)',
               'set 1 (l,G) s:8', 'get 1 l', 'get 0 l'] + (['alias 0 Ethanol l', 'get 1 l', 'get 2 l', 'get 0 l'] if GEN_PHASE_LETTER_ALIAS else []),
              {'kind': 'corpus-copy-redefine'}) if GEN_REDEFINE_GROUPS else Case([W], {'kind': 'corpus-copy-redefine'}))
+    cases.append(
+        # 19. read-only queries between the definition of a group (members out of chemical order) and a scalar written to it
+        Case([W, 'group 0 G Methanol,Water,Ethanol 1,2,5', 'cix 0', 'mix 0 lg', 'set 0 * v:1,2,4', 'query 0 members G', 'query 0 groups',
+              'query 0 aliases Water', 'query 0 contains G', 'query 0 contains Nope', 'query 0 available (Water,G)', 'set 0 G s:8', 'get 0 *',
+              'query 0 members G', 'set 1 (l,G) s:16', 'get 1 l', 'setm 0 G s:8', 'get 0 *', 'get 0 (Methanol,G)'], {'kind': 'corpus-queries'}))
     if GEN_ALIASED_MASS_VALUE:
         cases.append(Case([W, 'cix 0', 'mix 0 lg', 'set 0 * v:1,2,4', 'setm 0 * r:0.0', 'get 0 *', 'set 1 l v:1,2,4', 'setm 1 l r:1.1', 'get 1 l',
                            'setm 1 (g,*) r:1.1', 'get 1 (*,*)'], {'kind': 'corpus-mass-alias'}))
